@@ -85,12 +85,12 @@ def vfiles():
 
 # translation obligations: definitions regenerated from /repo's source on every run (harness/translate.py) and proved equal to
 # the model by conversion; a property lists the generated files its theorems lean on
-TRANSLATED = {"C05": ["NAdvanceGen", "MultistageGen", "SeqGen", "HSeqGen"], "C13": ["NAdvanceGen", "TwoLevelGen"], "C17": ["NAdvanceGen", "SeqGen", "HSeqGen"], "C10": ["FinalizeGen"], "C18": ["ActValGen"], "C11": ["ObserversGen"],
-              "C01": ["BasicGen", "TwoLevelGen", "MultistageGen", "ConverterGen", "ConvertGen", "MixedGen", "SeqGen", "HSeqGen"], "C02": ["BasicGen", "TwoLevelGen", "MultistageGen", "ConverterGen", "MixedGen", "SeqGen", "HSeqGen"],
-              "C03": ["BasicGen", "TwoLevelGen", "MultistageGen", "ConverterGen", "MixedGen", "SeqGen", "HSeqGen"], "C04": ["BasicGen", "TwoLevelGen", "MultistageGen", "ConverterGen", "MixedGen", "SeqGen", "HSeqGen"],
-              "C08": ["BasicGen", "TwoLevelGen", "MultistageGen", "ConverterGen", "MixedGen", "SeqGen", "HSeqGen"], "C09": ["BasicGen", "TwoLevelGen", "MultistageGen", "ConverterGen", "MixedGen", "SeqGen", "HSeqGen"],
-              "C12": ["BasicGen", "TwoLevelGen", "MultistageGen", "ConverterGen", "ConvertGen", "MixedGen", "SeqGen", "HSeqGen"], "C14": ["MultistageGen"], "C06": ["MemoGen", "MixedGen"], "C15": ["MemoGen"],
-              "C16": ["MemoGen", "MixedGen"], "C07": ["SeqGen", "HSeqGen"], "C19": ["SeqGen", "HSeqGen"]}
+TRANSLATED = {"C05": ["NAdvanceGen", "MultistageGen", "SeqGen", "HSeqGen", "HoptGen", "OptInfGen", "Opt0Gen"], "C13": ["NAdvanceGen", "TwoLevelGen"], "C17": ["NAdvanceGen", "SeqGen", "HSeqGen", "HoptGen", "OptInfGen", "Opt0Gen"], "C10": ["FinalizeGen"], "C18": ["ActValGen"], "C11": ["ObserversGen"],
+              "C01": ["BasicGen", "TwoLevelGen", "MultistageGen", "ConverterGen", "ConvertGen", "MixedGen", "SeqGen", "HSeqGen", "HoptGen", "OptInfGen", "Opt0Gen"], "C02": ["BasicGen", "TwoLevelGen", "MultistageGen", "ConverterGen", "MixedGen", "SeqGen", "HSeqGen", "HoptGen", "OptInfGen", "Opt0Gen"],
+              "C03": ["BasicGen", "TwoLevelGen", "MultistageGen", "ConverterGen", "MixedGen", "SeqGen", "HSeqGen", "HoptGen", "OptInfGen", "Opt0Gen"], "C04": ["BasicGen", "TwoLevelGen", "MultistageGen", "ConverterGen", "MixedGen", "SeqGen", "HSeqGen", "HoptGen", "OptInfGen", "Opt0Gen"],
+              "C08": ["BasicGen", "TwoLevelGen", "MultistageGen", "ConverterGen", "MixedGen", "SeqGen", "HSeqGen", "HoptGen", "OptInfGen", "Opt0Gen"], "C09": ["BasicGen", "TwoLevelGen", "MultistageGen", "ConverterGen", "MixedGen", "SeqGen", "HSeqGen", "HoptGen", "OptInfGen", "Opt0Gen"],
+              "C12": ["BasicGen", "TwoLevelGen", "MultistageGen", "ConverterGen", "ConvertGen", "MixedGen", "SeqGen", "HSeqGen", "HoptGen", "OptInfGen", "Opt0Gen"], "C14": ["MultistageGen"], "C06": ["MemoGen", "MixedGen"], "C15": ["MemoGen", "BasicGen", "TwoLevelGen", "MultistageGen", "ConverterGen", "MixedGen", "SeqGen", "HSeqGen", "HoptGen", "OptInfGen", "Opt0Gen"],
+              "C16": ["MemoGen", "MixedGen"], "C07": ["SeqGen", "HSeqGen", "HoptGen", "OptInfGen", "Opt0Gen"], "C19": ["SeqGen", "HSeqGen", "HoptGen", "OptInfGen", "Opt0Gen"]}
 
 
 def translation_layer(pid, res):
